@@ -57,3 +57,39 @@ Definition visible (st : state) : list nat :=
 Definition all_done (st : state) : bool := forallb (fun w => match pcw w with Done => true | _ => false end) (snd st).
 Definition lost (st : state) : list nat :=
   filter (fun t => negb (existsb (Nat.eqb t) (visible st))) (map tid (snd st)).
+
+(* a third protocol (seed C16-5): the per-exporter SLOT is published under the write lock, the template system is
+   created outside it through a once-guard, and the read-locked fast path returns the slot's system without going
+   through the guard.  A slot whose system does not exist yet is pub = Some i with i = length systems; a worker that
+   finds such a slot works with a nil system: its announcement is dropped silently. *)
+Definition wstep_slot (s : shared) (w : worker) : shared * worker :=
+  match pcw w with
+  | Lookup =>
+      match pub s with
+      | Some i => if Nat.ltb i (length (systems s)) then (s, {| pcw := Add; loc := i; tid := tid w |})
+                  else (s, {| pcw := Done; loc := i; tid := tid w |})             (* nil system: nothing added *)
+      | None => (s, {| pcw := Create; loc := 0; tid := tid w |})
+      end
+  | Create =>
+      match loc w with
+      | O =>                                             (* Lock; look again; reserve the slot; Unlock *)
+          match pub s with
+          | Some i => (s, {| pcw := Create; loc := S i; tid := tid w |})
+          | None => ({| pub := Some (length (systems s)); systems := systems s |},
+                     {| pcw := Create; loc := S (length (systems s)); tid := tid w |})
+          end
+      | S i =>                                           (* once.Do(create the system) *)
+          if Nat.ltb i (length (systems s)) then (s, {| pcw := Add; loc := i; tid := tid w |})
+          else ({| pub := pub s; systems := systems s ++ [[]] |}, {| pcw := Add; loc := i; tid := tid w |})
+      end
+  | Add =>
+      ({| pub := pub s; systems := upd (loc w) (tid w :: sys_get s (loc w)) (systems s) |},
+       {| pcw := Done; loc := loc w; tid := tid w |})
+  | Done => (s, w)
+  end.
+Definition step_slot (st : state) (i : nat) : state :=
+  match nth_error (snd st) i with
+  | Some w => let (s', w') := wstep_slot (fst st) w in (s', upd i w' (snd st))
+  | None => st
+  end.
+Definition run_slot (sched : list nat) (st : state) : state := fold_left step_slot sched st.
